@@ -303,6 +303,7 @@ int SimulateTms1000::dump_ram(int start, int end)
 {
   printf("RAM:");
 
+  if (start < 0) { start = 0; }
   if (end >= 64) { end = 63; }
 
   for (int i = start; i <= end; i++)
